@@ -21,10 +21,43 @@ pub fn def() -> PropertyDef {
         extra: no_extra,
         replay_custom: no_custom,
         assumptions: &[
-            "oracle = closed-form law of the property (round half away from zero); values within 1e-9 of a .5 tie accept either neighbour",
+            "oracle = closed-form law of the property (round half away from zero). For the total at speed s the rounded float quotient round(F1/s) and the exactly computed round of F1/s (integer arithmetic on the binary value of s) must agree with the result; where these two differ from each other (float division rounded across a .5 boundary) either is accepted. Per-state means within 1e-9 of a .5 tie accept either neighbour",
             "engine layer: expected frame count derived from the public Models::duration() of the same engine, so it checks the speed wiring, not the duration trees (C04)",
         ],
     }
+}
+
+/// round-half-away-from-zero of the EXACT quotient f1 / s (s taken as its exact binary value),
+/// computed in integer arithmetic. None if out of the supported range.
+pub fn exact_round_quotient(f1: u64, s: f64) -> Option<u64> {
+    if !(s.is_finite() && s > 0.0) || f1 >= (1 << 40) {
+        return None;
+    }
+    let bits = s.to_bits();
+    let exp = ((bits >> 52) & 0x7ff) as i64;
+    if exp == 0 {
+        return None;
+    }
+    let m = ((bits & ((1u64 << 52) - 1)) | (1u64 << 52)) as u128; // s = m * 2^(exp-1075)
+    let e = exp - 1075;
+    // floor(f1/s + 1/2) = floor((2 f1 + s) / (2 s)); scale numerator and denominator by 2^-e or 2^e
+    let (num, den): (u128, u128) = if e <= 0 {
+        let sh = (-e) as u32;
+        if sh > 80 {
+            return None;
+        }
+        ((2 * f1 as u128).checked_shl(sh)?.checked_add(m)?, 2 * m)
+    } else {
+        let sh = e as u32;
+        if sh > 60 {
+            return None;
+        }
+        (2 * f1 as u128 + (m << sh), 2 * (m << sh))
+    };
+    if (2 * f1 as u128) >= (1u128 << (127 - (-e).max(0) as u32)) {
+        return None;
+    }
+    u64::try_from(num / den).ok()
 }
 
 /// Candidates of round(x) where x may sit on a .5 tie (within tol): returns (lo, hi).
@@ -67,7 +100,7 @@ impl Prop for SpeedLaw {
         "speed-law".into()
     }
     fn rule(&self) -> String {
-        "DurationEstimator::create on 1..200 generated states (means log-uniform 0.2..60, variances 1e-3..400; modes: independent | all equal (ties) | exact .5 means | floor-dominated) at speed 1 and 4 sorted speeds log-uniform in [0.1,50]; oracle: d_i == max(round(mean_i),1) at speed 1, sum == max(round(F1/s), n), d_i >= 1, totals non-increasing in s. Non-trivial: a speed != 1 for which the all-ones floor or a total different from F1 occurs".into()
+        "DurationEstimator::create on 1..200 generated states (means log-uniform 0.2..60, variances 1e-3..400; modes: independent | all equal (ties) | exact .5 means | floor-dominated) at speed 1 and 4 sorted speeds in [0.1,50] (log-uniform | special | near 1 | constructed rounding boundaries F1/(k+0.5) +- 0..2 ulp); oracle: d_i == max(round(mean_i),1) at speed 1, sum == max(round(F1/s), n), d_i >= 1, totals non-increasing in s. Non-trivial: a speed != 1 for which the all-ones floor or a total different from F1 occurs".into()
     }
     fn tape_len(&self, _: Tier) -> usize {
         440
@@ -83,11 +116,23 @@ impl Prop for SpeedLaw {
             _ => t.urange(1, 200),
         };
         let params = gen_params(t, n);
+        // F1 is a pure function of the generated parameters, so boundary speeds can be constructed:
+        // s = F1 / (k + 0.5) and its neighbouring doubles put F1/s on (or one ulp beside) a rounding tie
+        let f1: f64 = params.iter().map(|(m, _)| m.round().max(1.0)).sum();
         let mut speeds: Vec<f64> = (0..4)
-            .map(|_| match t.weighted(&[6, 1, 1]) {
+            .map(|_| match t.weighted(&[6, 1, 1, 4]) {
                 0 => t.log_uniform(0.1, 50.0),
                 1 => *t.pick(&[1.0, 0.1, 50.0, 0.5, 2.0, 4.0, 0.25]),
-                _ => 1.0 + t.uniform(-1e-3, 1e-3),
+                2 => 1.0 + t.uniform(-1e-3, 1e-3),
+                _ => {
+                    let lo = (f1 / 50.0).floor().max(1.0);
+                    let hi = (f1 / 0.1).floor().max(lo);
+                    let k = lo + (t.unit() * (hi - lo)).floor();
+                    let s = f1 / (k + 0.5);
+                    let nudge = t.range(-2, 2);
+                    let s = f64::from_bits((s.to_bits() as i64 + nudge) as u64);
+                    s.clamp(0.1, 50.0)
+                }
             })
             .collect();
         speeds.sort_by(|a, b| a.partial_cmp(b).unwrap());
@@ -114,7 +159,18 @@ impl Prop for SpeedLaw {
             if s == 1.0 {
                 ensure!(total == f1, "speed-total", "speed 1 repeated: total {} != {}", total, f1);
             } else {
-                let (lo, hi) = round_candidates(f1 as f64 / s, 1e-9);
+                // the rounded float quotient and the exact quotient normally agree; where they differ
+                // (the float division rounded across a .5 boundary) either is accepted
+                let float_r = (f1 as f64 / s).round();
+                let exact_r = exact_round_quotient(f1 as u64, s).map(|x| x as f64).unwrap_or(float_r);
+                let (lo, hi) = (float_r.min(exact_r), float_r.max(exact_r));
+                if lo != hi {
+                    rep.class("float-vs-exact-rounding-differs");
+                }
+                let near_tie = { let q = f1 as f64 / s; ((q - q.floor()) - 0.5).abs() < 1e-9 };
+                if near_tie {
+                    rep.class("quotient-on-a-.5-boundary");
+                }
                 let e_lo = lo.max(n as f64) as usize;
                 let e_hi = hi.max(n as f64) as usize;
                 ensure!(
